@@ -277,3 +277,14 @@ package types
 //@   props C13
 //@   requires validBech32(m.Authority)
 //@   ensures len(signers) == 1 && signers[0] == addrOf(m.Authority)
+
+// stored bytes of a registration / a timestamp / a limit (used by the genesis import contract)
+//@ prelude
+//@ (define-fun bcBytes ((b beacon.Beacon)) (Slice Int) (marshal.beacon.Beacon b))
+//@ (define-fun tsBytes ((t beacon.BeaconTimestamp)) (Slice Int) (marshal.beacon.BeaconTimestamp t))
+//@ (define-fun blimBytes ((id Int) (n Int)) (Slice Int) (marshal.beacon.BeaconStorageLimit (mk.beacon.BeaconStorageLimit id n)))
+//@ (define-fun isTsKey ((k beacon.Key)) Bool ((_ is kTs) k))
+//@ (define-fun tsKeyId ((k beacon.Key)) Int (kTs.id k))
+//@ (define-fun isBeaconKey ((k beacon.Key)) Bool ((_ is kBeacon) k))
+//@ (define-fun isBLimitKey ((k beacon.Key)) Bool ((_ is kBLimit) k))
+//@ end
